@@ -943,7 +943,40 @@ func evalConstAtom(a string) (int64, bool) {
 // of the index and of the base's length, with the branch facts that hold at the instruction (loop variables are
 // symbols: the facts of the current iteration speak about them), entail 0 <= idx < len(base). Only index sinks.
 func (ge *GuardEngine) LinearDischarge(s Sink) (bool, string) {
-	if s.Kind != "index" || s.Instr == nil || s.ShrinkBody != nil {
+	if s.Instr == nil {
+		return false, ""
+	}
+	if sl, ok := s.Instr.(*ssa.Slice); ok && (s.Kind == "slice-low" || s.Kind == "slice-high") {
+		if _, isSlice := sl.X.Type().Underlying().(*types.Slice); !isSlice {
+			return false, ""
+		}
+		bound := sl.Low
+		if s.Kind == "slice-high" {
+			bound = sl.High
+		}
+		if bound == nil {
+			return false, ""
+		}
+		var extra []LinF
+		if body := shrinkLoopOf(ge, s.Fn, sl.X); body != nil {
+			inv, ok := ge.lockstepInvariant(sl.X)
+			if !ok {
+				return false, ""
+			}
+			extra = inv
+		}
+		res := ge.LinProve(LinGoal{Terms: []LinTerm{{V: sl.X, Len: true, Coef: 1}, {V: bound, Coef: -1}}, At: sl.Block(), Extra: extra})
+		if !res.OK {
+			return false, ""
+		}
+		if b, ok := bound.Type().Underlying().(*types.Basic); ok && b.Info()&types.IsUnsigned == 0 {
+			if lo := ge.LinProve(LinGoal{Terms: []LinTerm{{V: bound, Coef: 1}}, At: sl.Block(), Extra: extra}); !lo.OK {
+				return false, ""
+			}
+		}
+		return true, "linear facts at the reslice entail 0 <= bound <= len"
+	}
+	if s.Kind != "index" {
 		return false, ""
 	}
 	var base, idx ssa.Value
@@ -956,7 +989,17 @@ func (ge *GuardEngine) LinearDischarge(s Sink) (bool, string) {
 		return false, ""
 	}
 	at := s.Instr.Block()
-	upper := ge.LinProve(LinGoal{Terms: []LinTerm{{V: base, Len: true, Coef: 1}, {V: idx, Coef: -1}}, K: -1, At: at})
+	var extra []LinF
+	if s.ShrinkBody != nil {
+		// the base is re-sliced around the loop: facts from before the loop are void, but a counter that shrinks in
+		// lock step with it keeps len(base) - counter >= 0 (established before the loop, preserved by every back edge)
+		inv, ok := ge.lockstepInvariant(base)
+		if !ok {
+			return false, ""
+		}
+		extra = inv
+	}
+	upper := ge.LinProve(LinGoal{Terms: []LinTerm{{V: base, Len: true, Coef: 1}, {V: idx, Coef: -1}}, K: -1, At: at, Extra: extra})
 	if !upper.OK {
 		return false, ""
 	}
@@ -968,4 +1011,59 @@ func (ge *GuardEngine) LinearDischarge(s Sink) (bool, string) {
 		return false, ""
 	}
 	return true, "linear facts at the access entail 0 <= idx < len"
+}
+
+// lockstepInvariant: base is a loop-header phi S (re-sliced by the loop). Finds integer header phis R of the same
+// loop such that every back edge changes len(S) and R by the same amount, and len(S_init) - R_init >= 0 holds where
+// the loop is entered. Returns the facts len(S) - R >= 0 (over the loop-variable symbols).
+func (ge *GuardEngine) lockstepInvariant(base ssa.Value) ([]LinF, bool) {
+	var sphi *ssa.Phi
+	for v, d := base, 0; d < 4; d++ {
+		switch x := v.(type) {
+		case *ssa.Slice:
+			v = x.X
+			continue
+		case *ssa.Phi:
+			sphi = x
+		}
+		break
+	}
+	if sphi == nil || !isLoopVar(sphi) {
+		return nil, false
+	}
+	hdr := sphi.Block()
+	var out []LinF
+	for _, in := range hdr.Instrs {
+		rphi, ok := in.(*ssa.Phi)
+		if !ok {
+			break
+		}
+		if rphi == sphi || !isIntegerType(rphi.Type()) {
+			continue
+		}
+		okAll, entered := true, false
+		for i, pr := range hdr.Preds {
+			if hdr.Dominates(pr) {
+				// back edge: (len(S_e) - len(S)) - (R_e - R) == 0
+				res := ge.LinProve(LinGoal{Terms: []LinTerm{{V: sphi.Edges[i], Len: true, Coef: 1}, {V: sphi, Len: true, Coef: -1}, {V: rphi.Edges[i], Coef: -1}, {V: rphi, Coef: 1}}, Eq: true})
+				if !res.OK {
+					okAll = false
+				}
+			} else {
+				// entry: len(S_init) - R_init >= 0 at the end of the entering block
+				res := ge.LinProve(LinGoal{Terms: []LinTerm{{V: sphi.Edges[i], Len: true, Coef: 1}, {V: rphi.Edges[i], Coef: -1}}, At: pr})
+				if !res.OK {
+					okAll = false
+				}
+				entered = true
+			}
+		}
+		if okAll && entered {
+			f := newLin()
+			f.T["len(loopvar:"+sphi.Name()+")"] = 1
+			f.T["loopvar:"+rphi.Name()] = -1
+			out = append(out, f)
+		}
+	}
+	return out, len(out) > 0
 }
